@@ -162,8 +162,8 @@ def check_C05(res, replay):
     res.assumptions = ["theorems are over an arbitrary scalar type with arbitrary operations and ALL answer lists; the reading 'sqrt(mean |g_i|) < 0.1 implies "
                        "mean |g_i| < 0.1, and all |g_i| < 0.01 implies converged' is real arithmetic for n > 0 atoms (n = 0: 0/0 = NaN never converges; no loader yields an empty molecule)",
                        "positivity of the step length follows from alpha_invariant with P = (0 < .) given the order law 0 < a -> 0 < a/2 (true in R and, for <= 500 halvings of 1e-4, in f64)"]
-    return standard(res, ["tables"], ["OptRs.Props.C05"], [("sd", [], "sd")], "proof",
-                    "lake build OptRs.Props.C05 + #print axioms audit",
+    return standard(res, ["tables"], ["OptRs.Props.C05", "OptRs.Props.C05Measure"], [("sd", [], "sd")], "proof",
+                    "lake build OptRs.Props.C05 OptRs.Props.C05Measure + #print axioms audit",
                     "recorded request histories of Molecule::optimise / from_max_iterations(k) on UFF and RB force fields of library and random molecules, "
                     "and on synthetic fields: quadratic wells of stiffness 1..1e7 (several need halvings/restarts), monotonically rising energy, flat, "
                     "alternating, NaN energy, zero gradient, stateful answers, budgets 0 and 1; the model fed the answers must emit the identical request "
@@ -305,10 +305,10 @@ def check_C08(res, replay):
     res.trusted = TB_COMMON + ["HashSet traversal modelled as traversal of an arbitrary enumeration (List.Perm = all hash seeds)",
                                "Mathlib (sum over a permutation for the real-valued energy)", "axioms audited: subset of {propext, Classical.choice, Quot.sound}"]
     res.assumptions = ["'equal to rounding' for energies/gradients: over the reals the sums are equal; in doubles only the summation order differs (checked to 1e-9 relative on the real code)",
-                       "bond-order assignment maps over a Vec collected from the set and is pointwise in each bond; its independence of the order is covered by the build correspondence and the repeated-construction search, not by a theorem",
+                       "bond-order assignment (guess + hypervalency refinement) is proved to commute with re-enumeration of the bond set (bond_orders_perm, bond_order_of_pair_perm)",
                        "the optimised structure is a function of (start, answers) by C05's model, hence of the (order-independent) force field"]
     L.run_translators(["tables", "terms", "uff"], res)
-    L.prove(["OptRs.Props.C08", "OptRs.Props.C10"], res, BUILD_AUDIT + ["OptRs.Lemmas.FFReal"])
+    L.prove(["OptRs.Props.C08", "OptRs.Props.C08Orders", "OptRs.Props.C10"], res, BUILD_AUDIT + ["OptRs.Lemmas.FFReal", "OptRs.Lemmas.OrdersPerm"])
     L.build_cli(res)
     if L.build_harness(res) and L.build_model(res):
         for stream, model, io in (("build", "build", True), ("repro", "-", False)):
@@ -317,7 +317,7 @@ def check_C08(res, replay):
                 L.compare_lines(lines, model, res, stream, ignore_oracle=io)
         res.cases += int(res.stats.get("repro.molecules", "0")) * int(res.stats.get("repro.constructions_per_molecule", "0"))
         res.distinct += int(res.stats.get("repro.with_centre_of_three_or_more_neighbours", "0"))
-    return L.finish(res, "proof", "lake build OptRs.Props.C08 OptRs.Props.C10 + #print axioms audit",
+    return L.finish(res, "proof", "lake build OptRs.Props.C08 OptRs.Props.C08Orders OptRs.Props.C10 + #print axioms audit",
                     "every molecule of the build stream is constructed once against the deterministic model; library + low-symmetry distorted centres (>= 3 neighbours with "
                     "pairwise different angles) are constructed 24 (quick) / 64 (thorough) times in one process — each HashSet draws fresh keys — comparing connectivity, assigned "
                     "types, sorted term lists bit for bit and UFF energy/gradient to 1e-9; the command-line tool is run 4 (quick) / 8 (thorough) times per input comparing opt.xyz bytes")
@@ -433,12 +433,12 @@ def check_C03(res, replay):
     res.trusted = TB_COMMON + ["Mathlib (real analysis)", "energy model tied bit for bit to the Rust energy functions; gradient programs re-translated each run",
                                "axioms audited: subset of {propext, Classical.choice, Quot.sound}"]
     res.assumptions = [REAL_ASSUMPTION,
-                       "PARTLY EXPLORED: zero net torque and the rotation covariance of the gradient are checked on the real code only (they follow from the proved rotation invariance by "
-                       "differentiating along rotations; that derivation is not formalised); translation invariance, rotation invariance of all seven energies and zero net force are theorems",
+                       "translation invariance, rotation invariance of all seven energies, zero net force and zero net torque (about the three coordinate axes; with zero net force, about any point) "
+                       "are theorems; PARTLY EXPLORED: the rotation covariance of the gradient (g(Rx) = R g(x)) is checked on the real code only",
                        "perception under rigid motion: in floats a pair sitting within 1e-6 (relative) of the 1.3 x radii threshold, or two candidate distances tied to 1e-6, may flip by rounding — "
                        "such inputs are skipped for the connectivity comparison and counted"]
     L.run_translators(["tables", "terms", "uff"], res)
-    L.prove(["OptRs.Props.C03", "OptRs.Props.C02"], res, GRAD_LEMMAS + ["OptRs.Lemmas.Translate", "OptRs.Lemmas.Rotate", "OptRs.Model.Perceive"])
+    L.prove(["OptRs.Props.C03", "OptRs.Props.C02"], res, GRAD_LEMMAS + ["OptRs.Lemmas.Translate", "OptRs.Lemmas.Rotate", "OptRs.Lemmas.Torque", "OptRs.Model.Perceive"])
     if L.build_harness(res) and L.build_model(res):
         for stream, model, io in (("terms", "terms", True), ("rigid", "-", False)):
             lines = harness_lines(stream, [], res)
